@@ -388,21 +388,188 @@ def labels_and_project(repo: Repo, rep, P: str):
 
 
 # ------------------------------------------------------------------------------------ R3
+class _WrongRuns(Exception):
+    pass
+
+
+def _attach_predicate(repo: Repo, mm, rc: ast.FunctionDef):
+    """('ok' | '?' | 'bad', detail): the controller at position k of self.user_defined is attached iff k < user_defined_controllers,
+    and every position is decided.  Positions come from enumerate / a zipped range, or from a zipped sequence of booleans
+    ([True]*a + [False]*b, chain(repeat(True, a), repeat(False)))."""
+    from .. import alg, inline
+    from ..packed import single_defs, resolve_names
+    fn = inline.normalize(repo, mm, rc)
+    defs = single_defs(fn)
+    loops = [n for n in walk_no_nested(fn) if isinstance(n, ast.For)]
+    if len(loops) != 1:
+        return "?", f"{len(loops)} loops"
+    lp = loops[0]
+    it = resolve_names(lp.iter, defs)
+    Nn = alg.Poly.sym("n")
+    try:
+        MAXV = alg.Poly.const(int(repo.fold(ast.Name(id="MAX_USER_DEFINED_CONTROLLERS", ctx=ast.Load()), ci=mm)))
+    except Exception:
+        return "?", "MAX_USER_DEFINED_CONTROLLERS not constant"
+
+    def leaf(e):
+        if norm(e) == "self.user_defined_controllers":
+            return Nn
+        if isinstance(e, ast.Call) and norm(e.func) == "len" and len(e.args) == 1 and norm(e.args[0]) == "self.user_defined":
+            return MAXV
+        if isinstance(e, (ast.Name, ast.Attribute)):
+            try:
+                c = repo.fold(e, ci=mm)
+                if isinstance(c, int) and not isinstance(c, bool):
+                    return alg.Poly.const(c)
+            except Exception:
+                pass
+        return None
+
+    def poly(e):
+        return alg.to_poly(resolve_names(e, defs), leaf)
+
+    def const_bool(e):
+        return e.value if isinstance(e, ast.Constant) and isinstance(e.value, bool) else None
+
+    def bools(e):
+        """(a, total or None) for a sequence that is True for the first a positions and False afterwards."""
+        e = resolve_names(e, defs)
+        if isinstance(e, ast.BinOp) and isinstance(e.op, ast.Add):
+            terms = []
+
+            def flat(x):
+                if isinstance(x, ast.BinOp) and isinstance(x.op, ast.Add):
+                    flat(x.left)
+                    flat(x.right)
+                else:
+                    terms.append(x)
+            flat(e)
+            runs = []
+            for x in terms:
+                if isinstance(x, ast.List) and x.elts and all(const_bool(y) is not None for y in x.elts):
+                    runs.extend((const_bool(y), alg.Poly.const(1)) for y in x.elts)
+                elif isinstance(x, ast.BinOp) and isinstance(x.op, ast.Mult) and isinstance(x.left, ast.List) and len(x.left.elts) == 1 \
+                        and const_bool(x.left.elts[0]) is not None:
+                    runs.append((const_bool(x.left.elts[0]), poly(x.right)))
+                elif isinstance(x, ast.BinOp) and isinstance(x.op, ast.Mult) and isinstance(x.right, ast.List) and len(x.right.elts) == 1 \
+                        and const_bool(x.right.elts[0]) is not None:
+                    runs.append((const_bool(x.right.elts[0]), poly(x.left)))
+                else:
+                    return None
+            merged = []
+            for v, c in runs:
+                if merged and merged[-1][0] == v:
+                    merged[-1] = (v, merged[-1][1] + c)
+                else:
+                    merged.append((v, c))
+            if len(merged) == 2 and merged[0][0] is True and merged[1][0] is False:
+                return merged[0][1], merged[0][1] + merged[1][1]
+            raise _WrongRuns("; ".join(f"{'attached' if v else 'detached'} × {c}" for v, c in merged))
+        if isinstance(e, ast.Call) and norm(e.func).split(".")[-1] == "chain" and len(e.args) == 2 \
+                and all(isinstance(x, ast.Call) and norm(x.func).split(".")[-1] == "repeat" and x.args for x in e.args) \
+                and const_bool(e.args[0].args[0]) is True and const_bool(e.args[1].args[0]) is False and len(e.args[0].args) == 2:
+            a = poly(e.args[0].args[1])
+            return a, (a + poly(e.args[1].args[1]) if len(e.args[1].args) == 2 else None)
+        return None
+
+    def index_len(e):
+        """length (Poly or None = unbounded) of a sequence whose element at position k is k; 'no' otherwise."""
+        e = resolve_names(e, defs)
+        if isinstance(e, ast.Call) and norm(e.func) == "range" and len(e.args) == 1:
+            return poly(e.args[0])
+        if isinstance(e, ast.Call) and norm(e.func).split(".")[-1] == "count" and not e.args:
+            return None
+        return "no"
+    cvar = kvar = bvar = None
+    total = None
+    first_true = None
+    try:
+        if isinstance(it, ast.Call) and norm(it.func) == "enumerate" and len(it.args) == 1 and norm(it.args[0]) == "self.user_defined" \
+                and isinstance(lp.target, ast.Tuple) and len(lp.target.elts) == 2:
+            kvar, cvar = norm(lp.target.elts[0]), norm(lp.target.elts[1])
+        elif isinstance(it, ast.Call) and norm(it.func) == "zip" and len(it.args) == 2 and isinstance(lp.target, ast.Tuple) and len(lp.target.elts) == 2:
+            pairs = list(zip(it.args, lp.target.elts))
+            ud = [(a, t) for a, t in pairs if norm(a) == "self.user_defined"]
+            other = [(a, t) for a, t in pairs if norm(a) != "self.user_defined"]
+            if len(ud) != 1 or len(other) != 1:
+                return "?", norm(it)
+            cvar = norm(ud[0][1])
+            bl = bools(other[0][0])
+            if bl is not None:
+                bvar = norm(other[0][1])
+                first_true, total = bl
+            else:
+                il = index_len(other[0][0])
+                if il == "no":
+                    return "?", norm(other[0][0])
+                kvar, total = norm(other[0][1]), il
+        else:
+            return "?", norm(it)
+        # body: if T: c.attach(self) else: c.detach(self)
+        body = [st for st in lp.body if not isinstance(st, ast.Pass)]
+        if len(body) != 1 or not isinstance(body[0], ast.If) or len(body[0].body) != 1 or len(body[0].orelse) != 1:
+            return "?", norm(lp)[:160]
+        iff = body[0]
+        t_call, f_call = norm(iff.body[0]), norm(iff.orelse[0])
+        att, det = f"{cvar}.attach(self)", f"{cvar}.detach(self)"
+        if (t_call, f_call) == (att, det):
+            neg = False
+        elif (t_call, f_call) == (det, att):
+            neg = True
+        else:
+            return "?", f"{t_call} / {f_call}"
+        test = iff.test
+        while isinstance(test, ast.UnaryOp) and isinstance(test.op, ast.Not):
+            test, neg = test.operand, not neg
+        test = resolve_names(test, {k: v for k, v in defs.items() if k not in (kvar, bvar, cvar)})
+        if bvar is not None and norm(test) == bvar:
+            A = first_true
+        elif kvar is not None and isinstance(test, ast.Compare) and len(test.ops) == 1:
+            l, op, r = test.left, test.ops[0], test.comparators[0]
+            if isinstance(op, ast.In) and norm(l) == kvar and isinstance(r, ast.Call) and norm(r.func) == "range" and len(r.args) == 1:
+                A = poly(r.args[0])
+            elif norm(l) == kvar and isinstance(op, (ast.Lt, ast.LtE, ast.GtE, ast.Gt)):
+                E = poly(r)
+                A, flip = {ast.Lt: (E, False), ast.LtE: (E + 1, False), ast.GtE: (E, True), ast.Gt: (E + 1, True)}[type(op)]
+                neg = neg != flip
+            elif norm(r) == kvar and isinstance(op, (ast.Lt, ast.LtE, ast.GtE, ast.Gt)):
+                E = poly(l)
+                A, flip = {ast.Gt: (E, False), ast.GtE: (E + 1, False), ast.LtE: (E, True), ast.Lt: (E + 1, True)}[type(op)]
+                neg = neg != flip
+            else:
+                return "?", norm(test)
+        else:
+            return "?", norm(test)
+    except alg.NotAlgebraic as e:
+        return "?", str(e)
+    except _WrongRuns as e:
+        return "bad", f"positions are decided in the runs [{e}] instead of attached × n, detached × (MAX − n)"
+    if neg:
+        return "bad", f"controllers at positions k < {A} are detached and the others attached"
+    if A != Nn:
+        return "bad", f"controllers at positions k < {A} are attached (n = user_defined_controllers): not exactly the first n"
+    if total is not None and total != MAXV:
+        if (total - MAXV).is_const() and (total - MAXV).const_value() > 0:
+            return "ok", ""
+        return "bad", f"only the first {total} positions are decided: controllers beyond them keep a stale attachment"
+    return "ok", ""
+
+
 def attachment(repo: Repo, rep, P: str):
     mm = repo.cls("MetaModule", module=MM)
     rel = mm.file.rel
     rc = repo.own_method(mm, "recompute_controller_attachment")
     s = norm(rc)
     rep.func(f"{MM}.MetaModule.recompute_controller_attachment")
-    need = ["ctl_count = self.user_defined_controllers",
-            "attached_values = [True] * ctl_count + [False] * (MAX_USER_DEFINED_CONTROLLERS - ctl_count)",
-            "zip(self.user_defined, attached_values)", "controller.attach(self)", "controller.detach(self)"]
-    missing = [n for n in need if n not in s]
-    if not missing:
+    verdict, detail = _attach_predicate(repo, mm, rc)
+    if verdict == "ok":
         rep.ok(f"{P}.R3", f"{rel}:MetaModule.recompute_controller_attachment", "first n attached, the remaining MAX − n detached",
                "exactly the first n user controllers are exposed when the count is n")
+    elif verdict == "?":
+        rep.inconclusive(f"{P}.R3", f"{rel}:MetaModule.recompute_controller_attachment", detail, "attachment computation not recognised",
+                         f"{rel}:{rc.lineno}")
     else:
-        rep.violation(f"{P}.R3", f"{rel}:MetaModule.recompute_controller_attachment", f"missing: {missing}",
+        rep.violation(f"{P}.R3", f"{rel}:MetaModule.recompute_controller_attachment", detail,
                       "attachment must be: first `user_defined_controllers` controllers attached, all others detached", f"{rel}:{rc.lineno}")
     cb = norm(repo.own_method(mm, "on_user_defined_controllers_changed"))
     if "self.recompute_controller_attachment()" in cb:
